@@ -1,5 +1,6 @@
 """C17 — Date-time, duration and time-of-day arithmetic obeys its inverse laws."""
 CFG = dict(
+    src_tables=True,   # tools/gen_tables.py + Proofs/SrcTablesOk.v: tables regenerated from the Rust source on every run
     bins=["c17"],
     imports=["Run.RunC17"],
     exhaustive=False,
